@@ -879,3 +879,121 @@ theorem two_pushes_aux (env : Env) (hwf : env.WF) (hff : env.RestoreFaultFree)
     exact serial_one env hwf hff st hst a ha
 
 end LunarVerif.C08
+
+namespace LunarVerif.C08
+
+/-! ### The registry of managed endpoints -/
+
+/-- Every scheduled job carries a serial that is not ahead of the request counter. -/
+def Registry.WF (r : Registry) : Prop := ∀ job ∈ r.pending, job.2 ≤ r.serial
+
+theorem Registry.fire_ser (r : Registry) (job : List Path × Nat) : (r.fire job).ser = r.ser := rfl
+theorem Registry.fire_serOf (r : Registry) (job : List Path × Nat) (e : Path) :
+    (r.fire job).serOf e = r.serOf e := rfl
+
+theorem Registry.foldl_fire_serOf (jobs : List (List Path × Nat)) (r : Registry) (e : Path) :
+    (jobs.foldl Registry.fire r).serOf e = r.serOf e := by
+  induction jobs generalizing r with
+  | nil => rfl
+  | cons j rest ih => simp only [List.foldl_cons]; rw [ih, Registry.fire_serOf]
+
+/-- An endpoint survives the firing of a list of jobs if each job that names it is older than its serial. -/
+theorem Registry.survives (jobs : List (List Path × Nat)) (r : Registry) (e : Path)
+    (hm : e ∈ r.managed)
+    (hj : ∀ job ∈ jobs, job.1.contains e = true → job.2 < r.serOf e) :
+    e ∈ (jobs.foldl Registry.fire r).managed := by
+  induction jobs generalizing r with
+  | nil => exact hm
+  | cons j rest ih =>
+    simp only [List.foldl_cons]
+    apply ih
+    · unfold Registry.fire
+      simp only [List.mem_filter, hm, true_and, Bool.not_eq_true', Bool.and_eq_false_iff,
+        decide_eq_false_iff_not, Nat.not_le]
+      by_cases hc : j.1.contains e = true
+      · right; exact hj j List.mem_cons_self hc
+      · left; simpa using hc
+    · intro job hjob hc
+      rw [Registry.fire_serOf]
+      exact hj job (List.mem_cons_of_mem _ hjob) hc
+
+theorem Registry.serOf_manage (r : Registry) (eps : List Path) (e : Path) (he : e ∈ eps) :
+    (r.manage eps).serOf e = r.serial + 1 := by
+  unfold Registry.serOf Registry.manage
+  simp only
+  induction eps with
+  | nil => cases he
+  | cons x rest ih =>
+    simp only [List.map_cons, List.cons_append, List.find?_cons]
+    by_cases hx : x = e
+    · simp [hx]
+    · simp only [hx, decide_false]
+      rcases List.mem_cons.mp he with h | h
+      · exact absurd h.symm hx
+      · exact ih h
+
+theorem Registry.mem_manage (r : Registry) (eps : List Path) (e : Path) (he : e ∈ eps) :
+    e ∈ (r.manage eps).managed := by
+  unfold Registry.manage
+  simp [he]
+
+theorem Registry.manage_wf (r : Registry) (h : r.WF) (eps : List Path) : (r.manage eps).WF := by
+  intro job hj
+  have := h job hj
+  show job.2 ≤ r.serial + 1
+  omega
+
+theorem Registry.schedule_wf (r : Registry) (h : r.WF) (prev new : List Path) : (r.schedule prev new).WF := by
+  unfold Registry.schedule
+  simp only
+  split
+  · exact h
+  · intro job hj
+    simp only [List.mem_append, List.mem_singleton] at hj
+    rcases hj with hj | hj
+    · exact h job hj
+    · subst hj; exact Nat.le_refl _
+
+/-- What a switch schedules never names an endpoint of the engine it switches to. -/
+theorem Registry.switch_pending (r : Registry) (prev new : List Path) (job : List Path × Nat)
+    (hj : job ∈ (r.switch prev new).pending) :
+    job ∈ r.pending ∨ (∀ e ∈ new, job.1.contains e = false) := by
+  unfold Registry.switch Registry.schedule at hj
+  simp only at hj
+  split at hj
+  · left; exact hj
+  · simp only [List.mem_append, List.mem_singleton] at hj
+    rcases hj with hj | hj
+    · left; exact hj
+    · right
+      intro e he
+      subst hj
+      simp only [List.contains_eq_mem, List.mem_filter, decide_eq_false_iff_not, not_and,
+        Bool.not_eq_true', decide_eq_false_iff_not, Decidable.not_not]
+      intro _
+      simpa using he
+
+/-- The serial discipline: after a switch to an engine with endpoints `new`, once the un-manage delay has
+    elapsed every endpoint of `new` is still managed — whatever older switches had scheduled. -/
+theorem Registry.switch_then_tick (r : Registry) (h : r.WF) (prev new : List Path) (e : Path) (he : e ∈ new) :
+    e ∈ ((r.switch prev new).tick).managed := by
+  unfold Registry.tick
+  simp only
+  apply Registry.survives
+  · unfold Registry.switch Registry.schedule
+    simp only
+    split <;> exact Registry.mem_manage r new e he
+  · intro job hjob hc
+    have hser : (r.switch prev new).serOf e = r.serial + 1 := by
+      unfold Registry.switch Registry.schedule
+      simp only
+      split <;> exact Registry.serOf_manage r new e he
+    rw [hser]
+    rcases Registry.switch_pending r prev new job hjob with hold | hnew
+    · have := h job hold; omega
+    · rw [hnew e he] at hc; cases hc
+
+theorem Registry.switch_wf (r : Registry) (h : r.WF) (prev new : List Path) : (r.switch prev new).WF :=
+  Registry.schedule_wf _ (Registry.manage_wf r h new) prev new
+
+end LunarVerif.C08
